@@ -271,7 +271,14 @@ def assemble(repo_dir: str, unit: dict, out_path: str):
             cache[rel] = (s, rsrc.mask(s))
         return cache[rel]
 
+    present_skipped = set()
     for ln in body_lines:
+        mp = re.search(r"\s*//@ONLY_IF_PRESENT\s+(\w+)\s*$", ln)
+        if mp:
+            # a stand-in that only exists when the tree defines the override named (see `ifpresent=skip`)
+            if mp.group(1) in present_skipped:
+                out.append(ln[:mp.start()])
+            continue
         m = re.match(r"(\s*)//@(TYPE|FN|CLONE_EQ)\s+(.*)$", ln)
         if not m:
             out.append(ln)
@@ -311,6 +318,15 @@ def assemble(repo_dir: str, unit: dict, out_path: str):
             try:
                 fn = rsrc.find_fn(src, kv["fn"], kv.get("within"), int(kv.get("nth", "0")), masked)
                 text = src[fn.decl_start:fn.body_close + 1]
+                if kv.get("ifpresent") == "skip":
+                    # the override exists but its text is outside Verus (stated in the template): only its
+                    # PRESENCE is recorded; nothing about its body is claimed
+                    functions.append({"function": kv.get("path", kv["fn"]), "file": kv["file"], "line": fn.line,
+                                      "sha256": sha256(text), "clauses": [],
+                                      "kind": "override present; its body is NOT verified (" + kv.get("why", "outside Verus") + ")",
+                                      "dropped": []})
+                    present_skipped.add(kv["fn"])
+                    continue
             except rsrc.AnchorLost:
                 # `ifabsent=empty_drop type=<T>`: the function is `Drop::drop` of T.  If T is still defined in
                 # this file but has no `impl Drop` any more, dropping a T runs NO user code: the contract is
